@@ -35,7 +35,7 @@ MIN_STATS = {'accesses_checked': 20000}
 ASSUMPTIONS = ['none beyond the generator bounds']
 
 PATHS = ['a', 'b', 'c/a', 'c/b', 'c/d/a', 'e/a/b/c', 'class', 'x y', '1a',
-         'c/x-y', 'f/g']
+         'c/x-y', 'f/g', '__default', 'c/__init__', '_p']
 VALUES = ['none', 'zero', 'false', 'empty_str', 'empty_list', 'empty_dict',
           'zero_float', 'nan', 'eq_false', 'eq_raises', 'bool_raises', 'obj',
           'world', 'eq_true', 'ne_weird']
@@ -150,6 +150,10 @@ def run_case(case):
 
         def load(self):
             self.loads += 1
+            # load() runs only when nothing is held: `cached`, read from
+            # here (a plain attribute read, no access to the resource),
+            # still says that the next access would load
+            cached_inside.append((self.uid, self.cached))
             if self.fail_next:
                 self.fail_next = False
                 self.fault = HarnessError(f'load of handle {self.uid} failed')
@@ -164,6 +168,7 @@ def run_case(case):
     root = desper.ResourceMap()
     hs = []
     nested = []         # handles read from inside another handle's load
+    cached_inside = []  # (uid, `cached` as read from inside its own load)
     for i, spec in enumerate(case['handles']):
         h = CH(i, make_factory(desper, spec['value']))
         h.dep = spec.get('dep')
@@ -428,6 +433,13 @@ def run_case(case):
         else:
             if not check_access(at, kind, i, lambda: access(kind, i)):
                 break
+    res.stats['cached_reads_inside_load'] += len(cached_inside)
+    wrong = [uid for uid, flag in cached_inside if flag is not False]
+    if wrong and not res.divs:
+        res.div(len(case['ops']), 'cached-inside-load', 'while the load of a '
+                'handle runs nothing is held yet: `cached`, read from inside '
+                'that load, must still say that the next access will load',
+                False, {'handles': wrong[:5]})
     res.nontrivial = nontrivial
     res.sample = {'loads': [h.loads for h in hs], 'epochs': epochs}
     return res
